@@ -443,15 +443,20 @@ class Interp:
                     raise _Stop()
                 continue
             if isinstance(st, ast.Expr):
-                if isinstance(st.value, ast.Call) and isinstance(st.value.func, ast.Attribute) and isinstance(st.value.func.value, ast.Name):
-                    nm = st.value.func.value.id
-                    if self.env.get(nm, UNKNOWN) is not UNKNOWN:
-                        before = repr(self.env[nm])
-                        r = self.ev(st.value)
-                        if r is UNKNOWN and st.value.func.attr in ("append", "extend", "add", "update", "insert", "pop", "remove", "clear",
-                                                                   "setdefault", "sort", "reverse", "discard"):
-                            self.env[nm] = UNKNOWN
-                        del before
+                if isinstance(st.value, ast.Call):
+                    call_ = st.value
+                    r = self.ev(call_)          # mutators of known containers act in place; constructor calls are recorded
+                    if r is UNKNOWN and isinstance(call_.func, ast.Attribute) and call_.func.attr in (
+                            "append", "extend", "add", "update", "insert", "pop", "remove", "clear", "setdefault", "sort", "reverse", "discard"):
+                        # a mutation whose effect is not known: the container is unknown from here on
+                        root = call_.func.value
+                        if isinstance(root, ast.Name):
+                            if self.env.get(root.id, UNKNOWN) is not UNKNOWN:
+                                self.env[root.id] = UNKNOWN
+                        elif isinstance(root, ast.Attribute):
+                            obj = self.ev(root.value)
+                            if isinstance(obj, NS) and root.attr not in obj.frozen:
+                                obj[root.attr] = UNKNOWN
                 continue
             if isinstance(st, ast.Assign):
                 v = self.ev(st.value)
@@ -474,7 +479,12 @@ class Interp:
                         self.env[st.target.id] = v
                 else:
                     self.ev(st.value)       # constructor calls on the right-hand side are still recorded
-                    self._poison([st])
+                    obj = self.ev(st.target.value) if isinstance(st.target, ast.Attribute) else UNKNOWN
+                    if isinstance(obj, NS):
+                        if st.target.attr not in obj.frozen:
+                            obj[st.target.attr] = UNKNOWN       # self.comb += ...: only that attribute changes
+                    else:
+                        self._poison([st])
                 continue
             if isinstance(st, ast.If):
                 t = self.ev(st.test)
